@@ -54,7 +54,11 @@ type prof struct {
 
 type mdv struct {
 	Entity string
-	ACS    []string
+	ACS    []string // the HTTP-POST assertion consumer services, in document order
+	// Shape: where the POST endpoints stand in the metadata (0: they are the only children of the only
+	// SPSSODescriptor; 1: one Artifact-binding ACS before them; 2: two before and one after; 3: a first
+	// SPSSODescriptor with only an Artifact ACS, the POST endpoints in the second; 4: an empty first descriptor)
+	Shape int `json:",omitempty"`
 }
 
 type hop19 struct {
@@ -336,7 +340,7 @@ func (w *world19) exec(o hop19) obs19 {
 		if o.IsAgg {
 			q.body = aggregateXML(o.Agg, o.Nested)
 		} else {
-			q.body = spMetadataXML(o.MD.Entity, o.MD.ACS)
+			q.body = spMetadataShapeXML(o.MD.Entity, o.MD.ACS, o.MD.Shape)
 		}
 	case "delservice":
 		q = reqSpec{method: "DELETE", path: "/services/" + escSeg(o.Name)}
@@ -352,7 +356,7 @@ func (w *world19) exec(o hop19) obs19 {
 		q = reqSpec{method: "POST", path: "/login", form: form(), cookie: cookie}
 	case "sso":
 		f := form()
-		f.Set("SAMLRequest", authnRequestB64(o.Issuer, o.ACS, "id-req", clockBase.Add(time.Duration(w.clock)*time.Second)))
+		f.Set("SAMLRequest", authnRequestB64(o.Issuer, o.ACS, "id-req", clockBase.Add(time.Duration(w.clock))))
 		q = reqSpec{method: "POST", path: "/sso", form: f, cookie: cookie}
 	case "launch":
 		q = reqSpec{method: "GET", path: "/login/" + escSeg(o.Name), cookie: cookie}
@@ -478,7 +482,7 @@ func (w *world19) exec(o hop19) obs19 {
 				ob.Body = "session"
 				ob.S = &sobs{ID: w.absID(s.ID), User: s.UserName, NameID: s.NameID,
 					Prof:   prof{Email: s.UserEmail, CN: s.UserCommonName, SN: s.UserSurname, Given: s.UserGivenName, Scoped: s.UserScopedAffiliation, Groups: s.Groups},
-					Create: int64(s.CreateTime.Sub(clockBase) / time.Second), Expire: int64(s.ExpireTime.Sub(clockBase) / time.Second)}
+					Create: int64(s.CreateTime.Sub(clockBase)), Expire: int64(s.ExpireTime.Sub(clockBase))}
 			}
 		}
 		if ob.Body == "" {
@@ -499,7 +503,7 @@ func runHistory(h hist19, seed int64, restartAt int) ([]obs19, int, bool, int) {
 	defer func() { saml.TimeNow, saml.RandReader = oldNow, oldRand }()
 	w := &world19{fs: &faultStore{inner: &samlidp.MemoryStore{}, plan: h.Plan, enabled: true},
 		abs2real: map[string]string{}, real2abs: map[string]string{}, svcEnt: map[string]string{}}
-	saml.TimeNow = func() time.Time { return clockBase.Add(time.Duration(w.clock) * time.Second) }
+	saml.TimeNow = func() time.Time { return clockBase.Add(time.Duration(w.clock)) } // the model clock counts nanoseconds
 	saml.RandReader = seededReader{rand.New(rand.NewSource(seed))}
 	w.minimal = h.Minimal
 	w.fs.enabled = false
@@ -576,10 +580,10 @@ var (
 	e1, e2, e3  = "https://sp1.example.com/metadata", "https://sp2.example.com/metadata", "https://sp3.example.com/metadata"
 	acs1, acs1b = "https://sp1.example.com/acs", "https://sp1.example.com/acs-b"
 	acs2, acs2b = "https://sp2.example.com/acs", "https://sp2.example.com/acs2"
-	md1         = mdv{e1, []string{acs1}}
-	md1b        = mdv{e1, []string{acs1b}} // same entity ID, other ACS
-	md2         = mdv{e2, []string{acs2, acs2b}}
-	md3         = mdv{e3, nil} // no ACS endpoint
+	md1         = mdv{Entity: e1, ACS: []string{acs1}}
+	md1b        = mdv{Entity: e1, ACS: []string{acs1b}} // same entity ID, other ACS
+	md2         = mdv{Entity: e2, ACS: []string{acs2, acs2b}}
+	md3         = mdv{Entity: e3} // no ACS endpoint
 	evilACS     = "https://evil.example.net/acs"
 	unknownSP   = "https://unknown.example.org/metadata"
 )
@@ -697,6 +701,9 @@ func genHistory(r *rand.Rand, maxLen int, dupOK bool) hist19 {
 			if len(m.ACS) == 0 && r.Intn(3) != 0 {
 				m = pick(r, mdFor[id])
 			}
+			if r.Intn(3) == 0 {
+				m.Shape = 1 + r.Intn(4)
+			}
 			o = hop19{Kind: "putservice", Name: id, MD: &m}
 			if r.Intn(4) == 0 { // an aggregate: the first SP entity counts
 				other := pick(r, mdFor[id])
@@ -765,7 +772,8 @@ func genHistory(r *rand.Rand, maxLen int, dupOK bool) hist19 {
 		case x < 90:
 			o = hop19{Kind: "delsession", Name: sessRef()}
 		case x < 97:
-			o = hop19{Kind: "advance", Dt: pick(r, []int64{1, 1, 60, 60, 1799, 1800, 3599, 3600, 3601, 7200})}
+			o = hop19{Kind: "advance", Dt: pick(r, []int64{1, nsec, nsec, 60 * nsec, 60 * nsec, 1799 * nsec, 1800 * nsec, 3599 * nsec, 3600*nsec - 1,
+				3600 * nsec, 3600 * nsec, 3600*nsec + 1, 3601 * nsec, 7200 * nsec})}
 		default:
 			o = hop19{Kind: "restart"}
 		}
@@ -913,7 +921,11 @@ func ssoPw(iss, acs, u, pw string) hop19 {
 }
 func loginPw(u, pw string) hop19  { return hop19{Kind: "login", User: u, Pass: pw} }
 func launchCk(n, ck string) hop19 { return hop19{Kind: "launch", Name: n, Cookie: sp(ck)} }
-func adv(dt int64) hop19          { return hop19{Kind: "advance", Dt: dt} }
+
+const nsec = int64(time.Second)
+
+func adv(sec int64) hop19  { return hop19{Kind: "advance", Dt: sec * nsec} } // seconds
+func advNs(ns int64) hop19 { return hop19{Kind: "advance", Dt: ns} }
 
 func directed19() []hist19 {
 	var out []hist19
@@ -927,6 +939,13 @@ func directed19() []hist19 {
 		add("expiry", with(loginPw("alice", pw1), adv(dt), ssoCookie(e1, acs1, "S0"), launchCk("x", "S0"),
 			hop19{Kind: "login", Cookie: sp("S0")})...)
 		add("expiry", with(ssoPw(e1, "", "alice", pw1), adv(dt-1), adv(1), launchCk("x", "S0"), ssoCookie(e1, "", "S0"))...)
+	}
+	// ... exactly at the expiry instant the session is still good (expired = strictly after), one nanosecond later it is not
+	for _, ns := range []int64{3600*nsec - 1, 3600 * nsec, 3600*nsec + 1, 3600*nsec - nsec, 3600*nsec + nsec} {
+		add("expiry", with(loginPw("alice", pw1), advNs(ns), ssoCookie(e1, acs1, "S0"), launchCk("x", "S0"),
+			hop19{Kind: "login", Cookie: sp("S0")}, hop19{Kind: "getsess", Name: "S0"})...)
+		add("expiry", with(loginPw("alice", pw1), advNs(ns-5), advNs(2), advNs(3), launchCk("x", "S0"), ssoCookie(e1, "", "S0"))...)
+		add("expiry", with(ssoPw(e1, "", "alice", pw1), advNs(ns), launchCk("x", "S0"), ssoCookie(e1, "", "S0"), advNs(1), launchCk("x", "S0"))...)
 	}
 	// deleted session
 	add("deleted_session", with(loginPw("alice", pw1), ssoCookie(e1, acs1, "S0"), hop19{Kind: "delsession", Name: "S0"},
@@ -967,6 +986,15 @@ func directed19() []hist19 {
 	add("registration", putUser("alice", sp(pw1), 0), loginPw("alice", pw1), putSvc("b", md3), hop19{Kind: "putshortcut", Name: "y", SP: e3},
 		hop19{Kind: "putshortcut", Name: "x", SP: unknownSP}, launchCk("y", "S0"), ssoCookie(e3, "", "S0"), launchCk("x", "S0"), launchCk("z", "S0"),
 		hop19{Kind: "delshortcut", Name: "y"}, launchCk("y", "S0"))
+	// the HTTP-POST endpoint is not the first ACS child / not in the first SPSSODescriptor
+	for shape := 1; shape <= 4; shape++ {
+		m1, m2 := md1, md2
+		m1.Shape, m2.Shape = shape, shape
+		add("acs_position", putUser("alice", sp(pw1), 0), loginPw("alice", pw1), putSvc("a", m1), putSvc("b", m2),
+			hop19{Kind: "putshortcut", Name: "x", SP: e1}, hop19{Kind: "putshortcut", Name: "y", SP: e2},
+			launchCk("x", "S0"), launchCk("y", "S0"), ssoCookie(e1, "", "S0"), ssoCookie(e1, acs1, "S0"), ssoCookie(e2, acs2b, "S0"), ssoCookie(e2, "", "S0"),
+			hop19{Kind: "restart"}, launchCk("x", "S0"), launchCk("y", "S0"), ssoCookie(e2, acs2, "S0"), hop19{Kind: "launch", Name: "x"})
+	}
 	// EntitiesDescriptor aggregates: exactly the first SP entity of the top level is registered
 	aggTail := []hop19{ssoCookie(e1, "", "S0"), ssoCookie(e2, "", "S0"), ssoCookie(e3, "", "S0"), ssoCookie(idpOnly, "", "S0"),
 		hop19{Kind: "putshortcut", Name: "x", SP: e1}, hop19{Kind: "putshortcut", Name: "y", SP: e2}, launchCk("x", "S0"), launchCk("y", "S0"),
